@@ -80,6 +80,12 @@ def main(ctx):
         total_sessions = len(specs)
         specs = recvlib.sample_sessions(specs, ns, ctx.seed)
         infos = recvlib.session_infos(ctx, specs, sfam)
+        if ctx.prop == "C01" and sfam == "clean":
+            # the property starts at the sender: the sessions fed to the receiver are themselves sender behaviours and are
+            # judged by the sender monitors too (a sender that panics or stops in the middle of the second transfer of a
+            # streamed object produces a shorter session, which the receiver-side monitor alone would accept as sent)
+            senderlib.run_behaviours(ctx, [json.loads(json.dumps(x)) for x in specs], "clean-sender")
+            senderlib.own_and_panics(ctx, ctx.prop)
         behs = recvlib.gen_chan(ctx, cfam, infos, maxn=maxn)
         if cfam == "join":
             behs = recvlib.restrict_join(behs, infos)
